@@ -6,6 +6,7 @@ from ..core import (
     callee_of,
     callee_is,
     callee_name,
+    callee_decl,
     callee_matches,
     strip_generics,
     op_place,
@@ -372,3 +373,164 @@ def rule_slot_exhaustion(ctx):
                     ok = any(strip_generics(callee_name(callee_of(c)) or "") == opath + "::assumptions" for c in calls)
                     r.check(ok, b.id, "stale-assumptions", "assumptions are recomputed from the framework inside the query", "the query does not recompute the attack assumptions from the current framework", s.loc())
     r.floor(n, 3, "SAT calls of the attack-assumption solvers")
+
+
+# ------------------------------------------------------------------------------------------
+# found by seeded change C08/A: removal of an argument changes the attacker sets of everything it attacked
+
+
+def _selector_encoder(prog):
+    """(adt, re-encoding function) of the selector-based encoder"""
+    for b in prog.lib_bodies():
+        if b.kind == "closure" or not b.path.startswith("dynamics::") or not b.impl:
+            continue
+        adt = prog.adt(b.impl.get("self_adt") or "")
+        if not adt:
+            continue
+        lit_vecs = [f["name"] for v in adt["variants"] for f in v["fields"] if f["ty"] == "alloc::vec::Vec<sat::sat_solver::Literal>"]
+        if not lit_vecs:
+            continue
+        for u in field_uses(prog, adt["path"], lit_vecs[0], bodies=[b]):
+            if u.op == "alloc::vec::Vec::push":
+                return adt, b
+    return None, None
+
+
+def _derives_from_attacked_of(body, op, prog):
+    """does the operand depend on Attack::attacked of an iter_attacks_from*(..) iteration"""
+    seen, calls, _ = data_deps(body, op)
+    names = set()
+    for c in calls:
+        names.add(callee_decl(callee_of(c)))
+        for fa in (callee_of(c) or {}).get("fn_args") or []:
+            cb = prog.lib(fa)
+            if cb is not None:
+                for s in cb.calls():
+                    names.add(callee_decl(callee_of(s)))
+    has_iter = any(re.search(r"AAFramework::iter_attacks_from(_id)?$", n) for n in names)
+    has_attacked = any(n.endswith("aa_framework::Attack::attacked") for n in names)
+    has_attacker_only = any(n.endswith("aa_framework::Attack::attacker") for n in names) and not has_attacked
+    return has_iter and has_attacked and not has_attacker_only
+
+
+def rule_reencode_on_removal(ctx):
+    prog = ctx.prog
+    r = ctx.rule(
+        "reencode-on-removal",
+        "selector-based encoder: removing an argument changes the attacker set of every argument it attacks - each of them is re-encoded: the "
+        "encoder's remove_argument re-issues the constraints of `attacked(att)` for att in iter_attacks_from(removed), collected before the removal; "
+        "the buffered replay registers the same arguments before it calls the encoder",
+    )
+    adt, reb = _selector_encoder(prog)
+    if not r.require_anchor(adt is not None, "selector-based encoder"):
+        return
+    owner = adt["path"]
+    rm = prog.lib(owner + "::remove_argument")
+    if not r.require_anchor(rm, owner + "::remove_argument"):
+        return
+    # (i) inside the encoder
+    af_rm = [s for s in rm.calls() if callee_matches(callee_of(s), r"^aa::aa_framework::AAFramework::remove_argument$")]
+    ok = False
+    for x in prog.with_closures(rm):
+        for s in x.calls():
+            if strip_generics(callee_name(callee_of(s)) or "") == strip_generics(reb.path):
+                idop = s.node["args"][2]
+                # ids come from the collection iterated by the enclosing for_each
+                src_ok = False
+                if x is rm:
+                    src_ok = _derives_from_attacked_of(rm, idop, prog)
+                else:
+                    for ps in rm.calls():
+                        pc = callee_of(ps)
+                        if pc and x.path in (pc.get("fn_args") or []):
+                            src_ok = _derives_from_attacked_of(rm, ps.node["args"][0], prog)
+                            # the collection is computed before the framework removal
+                            _, calls, _ = data_deps(rm, ps.node["args"][0])
+                            its = [c for c in calls if callee_matches(callee_of(c), r"AAFramework::iter_attacks_from(_id)?$")]
+                            if af_rm and not all(rm.dominates(i, af_rm[0]) for i in its):
+                                src_ok = False
+                if src_ok:
+                    ok = True
+    r.check(ok and bool(af_rm), rm.id, "attacked-not-reencoded", "arguments attacked by the removed one are re-encoded (ids collected before the removal)", "after remove_argument the arguments it attacked keep constraints that still mention the removed attacker", rm.loc())
+    # (ii) callers outside the encoder (the buffered replay)
+    n = 0
+    for b in prog.lib_bodies():
+        fn = prog.enclosing_fn(b)
+        if fn.impl and fn.impl.get("self_adt") == owner:
+            continue
+        for s in b.calls():
+            if strip_generics(callee_name(callee_of(s)) or "") != strip_generics(rm.path):
+                continue
+            n += 1
+            reg = False
+            for x in b.calls():
+                if x.bb == s.bb or not b.reaches(x.bb, s.bb):
+                    continue
+                cx = callee_of(x)
+                is_closure_call = cx is not None and (callee_matches(cx, r"ops::function::(FnMut::call_mut|Fn::call)$") or "{closure#" in (cx.get("decl") or ""))
+                if not is_closure_call or len(x.node["args"]) < 2:
+                    continue
+                for o in origins(b, x.node["args"][1], transparent=()):
+                    if o.kind == "agg" and o.data["kind"] == "tuple":
+                        # the id comes from the iterator driving the loop
+                        seen, calls, _ = data_deps(b, o.site.node["rv"]["ops"][0])
+                        if _derives_from_attacked_of(b, o.site.node["rv"]["ops"][0], prog):
+                            reg = True
+            r.check(reg, b.id + "|remove_argument", "attacked-not-registered", "the replay registers every argument attacked by the removed one before removing it", "the replay of a removal does not register the arguments attacked by the removed argument for re-encoding (the encoder's own re-encoding is switched off during replay)", s.loc())
+    r.floor(n, 1, "callers of the selector-based encoder's remove_argument")
+
+
+def rule_monotone_allocation(ctx):
+    prog = ctx.prog
+    r = ctx.rule(
+        "monotone-allocation",
+        "a SAT variable / slot that has been handed out is never handed out again: allocation cursors and variable tables of the dynamic encoders only "
+        "grow (push, `+= k`) between full re-encodings; entries are only retired (`= None` / Ignored), never reused",
+    )
+    n = 0
+    for path, adt in sorted(prog.adts.items()):
+        if not path.startswith("dynamics::") or not any(re.search(r"Rc<core::cell::RefCell<alloc::boxed::Box<\(?dyn sat::sat_solver::SatSolver", f["ty"]) for v in adt["variants"] for f in v["fields"]):
+            continue
+        flds = [(f["name"], f["ty"]) for v in adt["variants"] for f in v["fields"]]
+        if not any(t.startswith("alloc::vec::Vec<core::option::Option<usize>>") for _, t in flds):
+            continue  # solvers, not encoders
+        # full re-encoding functions: those that replace the solver object
+        def is_full_encode(fn):
+            for s in fn.sites():
+                nd = s.node
+                if s.si is not None and nd["k"] == "assign" and nd["dst"]["p"] and nd["dst"]["p"][0] == "*" and "dyn sat::sat_solver::SatSolver" in fn.local_ty(nd["dst"]["l"]):
+                    return True
+            return False
+        for name, ty in flds:
+            if ty == "usize":
+                for u in field_uses(prog, path, name):
+                    if not u.mut or u.op == "init":
+                        continue
+                    n += 1
+                    if is_full_encode(u.fn):
+                        r.ok("%s.%s|%s" % (path, name, u.fn.path), "reset by the full re-encoding", u.site.loc())
+                        continue
+                    inc = None
+                    nd = u.site.node
+                    if u.op == "store" and nd["rv"]["k"] == "use":
+                        for o in origins(u.site.body, nd["rv"]["ops"][0], transparent=()):
+                            if o.kind == "binop":
+                                k = [op_const(x) for x in o.data["ops"]]
+                                kk = [x["int"] for x in k if x is not None and "int" in x]
+                                if o.data["op"] in ("Add", "AddWithOverflow") and kk and kk[0] > 0:
+                                    inc = "+%d" % kk[0]
+                                else:
+                                    inc = o.data["op"]
+                    r.check(inc is not None and inc.startswith("+"), "%s.%s|%s" % (path, name, u.fn.path), "cursor-op:%s" % (inc or u.op), "cursor %s only moves forward (%s)" % (name, inc), "allocation cursor %s is modified by `%s` in %s: a slot / variable that was retired can be handed out again" % (name, inc or u.op, u.fn.path), u.site.loc())
+            elif ty.startswith("alloc::vec::Vec<") and ("SolverVarType" in ty or "Option<usize>" in ty):
+                for u in field_uses(prog, path, name):
+                    if not u.mut or u.op == "init":
+                        continue
+                    n += 1
+                    if is_full_encode(u.fn):
+                        continue
+                    okop = u.op in ("alloc::vec::Vec::push", "store") or u.op.startswith("index_mut>store-through") or u.op in ("index_mut>core::option::Option::take",)
+                    if u.op == "store":
+                        okop = False
+                    r.check(okop, "%s.%s|%s" % (path, name, u.fn.path), "table-op:%s" % u.op, "table %s: %s" % (name, u.op), "variable table %s is modified by %s outside a full re-encoding" % (name, u.op), u.site.loc())
+    r.floor(n, 10, "writes to allocation state of the dynamic encoders")
